@@ -237,7 +237,7 @@ ARENA = {
         x=['block-contents-changed', 'grow-lost-contents', 'shrink-lost-contents', 'zeroed-allocation-not-zero',
            'grow-zeroed-tail-not-zero', 'MODELUB', 'panic'],
         mism=['block-contents', 'result-block'],
-        note='frame and contents proved for allocate/allocate_zeroed/fill, all non-writing operations and every branch of grow(_zeroed)/shrink; PARTIAL: the other-blocks corollary is proved for grow only'),
+        note='frame and contents proved for allocate/allocate_zeroed/fill, all non-writing operations and every branch of grow(_zeroed)/shrink incl. that the bytes of all other live blocks are untouched'),
     'C03': dict(
         x=['scope-exit-did-not-restore-allocated', 'scope-exit-did-not-restore-position', 'scope-exit-released-a-chunk',
            'reset-to-start-did-not-rewind-to-the-first-chunk', 'block-contents-changed', 'panic'],
